@@ -35,8 +35,11 @@ def gen_case(rng, opts=None):
         for t in cfg["types"]:          # small scalar values only: the client side is about flow
             for k, row in cur[t["name"]].items():
                 for a in t["attrs"]:
-                    if a not in t["pkey"] and (prev is None or k not in prev.get(t["name"], {}) or rng.random() < 0.5):
-                        v = rng.choice([1, 2, 3, "a", "b", None, [1], [1, 2]])
+                    # (with template mappings every value comes from the small pool: Jinja's native
+                    #  rendering would turn a string such as "1" into the integer 1)
+                    if a not in t["pkey"] and (prev is None or k not in prev.get(t["name"], {}) or rng.random() < 0.5
+                                               or opts.get("p_template")):
+                        v = rng.choice([1, 2, 3, "a", "b", None, [1], [1, 2]] + ([0, False, "", 0] if opts.get("falsy") else []))
                         row[a] = v
         polls.append(srvcase.to_remote_tables(cfg, cur))
         prev = cur
@@ -55,9 +58,12 @@ def gen_case(rng, opts=None):
             r = rng.random()
             if r < 0.15:
                 continue
-            am["l_" + a] = a
+            # a mapping may be written as a Jinja template of the single remote attribute: it
+            # takes the template branch of convertEventToLocal and renders to the same value
+            tmpl = (lambda x: "{{ " + x + " }}") if rng.random() < opts.get("p_template", 0.0) else (lambda x: x)
+            am["l_" + a] = tmpl(a)
             if r > 0.85:
-                am["l2_" + a] = a
+                am["l2_" + a] = tmpl(a)
         cdm["L" + t["name"]] = {"hermesType": t["name"], "attrsmapping": am}
     retention = opts.get("retention", rng.choice([0, 0, 1, 2]))
     if shape == "assoc" or any(len(t["pkey"]) > 1 for t in cfg["types"]):
@@ -359,7 +365,8 @@ class CCtx:
             l = self.lname_of.get(t["name"])
             if l is None:
                 continue
-            am = [(self.attrs[la], self.attrs[ra]) for la, ra in case["cdm"][l]["attrsmapping"].items()]
+            plain = lambda ra: ra[3:-3] if ra.startswith("{{ ") and ra.endswith(" }}") else ra
+            am = [(self.attrs[la], self.attrs[plain(ra)]) for la, ra in case["cdm"][l]["attrsmapping"].items()]
             am += [(self.attrs["_pkey_" + a], self.attrs[a]) for a in t["pkey"]]
             fks = [(self.attrs["_pkey_" + a], self.types[p]) for a, p in t["fks"].items()]
             cts.append("(CType {} {} {} {})".format(
